@@ -13,6 +13,7 @@ import TlsModel.RecordToy
          -> ok seq' cs' htype hvmaj hvmin body | none
     recv CFG PRIMS seq cs earlyOk maxEarly processed recvLimit plaintextAlertsOk htype hvmaj hvmin body
          -> ok seq' cs' earlyOk' processed' type data | skip processed' | err <name>
+    recvssl2 CFG firstByte               -> err <name> | unmodelled | tls   (record framed with an SSLv2 header)
     frag split rs n                      -> comma separated fragment lengths | none
     wirelen CFG PRIMS PAD sendLimit type n -> length | none
     limits tls13 cset sset               -> cSend cRecv sSend sRecv   (settings: number | none)
@@ -136,6 +137,14 @@ def handle : List String → Option String
       | .skip rv' => some s!"skip {rv'.processed}"
       | .err e => some s!"err {e.name}"
     | _ => none
+  | "recvssl2" :: rest => do
+    if rest.length != 11 then none
+    let c ← parseCfg (rest.take 10)
+    let b0 ← (rest.getD 10 "").toNat?
+    if isTlsHeaderByte (UInt8.ofNat b0) then some "tls"
+    else match recvSsl2Framed c with
+      | some e => some s!"err {e.name}"
+      | none => some "unmodelled"
   | ["frag", split, rs, n] => do
     match fragments (← bool? split) (← rs.toNat?) (zeros (← n.toNat?)) with
     | none => some "none"
